@@ -22,6 +22,10 @@ func Print(e View) error {
 	}
 
 	lines := e.MaxLines()
+	// A maximum below the minimum is interpreted as the minimum.
+	if lines >= 0 && lines < minLines {
+		lines = minLines
+	}
 	if lines < 0 || lines > screenLines {
 		lines = screenLines
 	}
